@@ -139,6 +139,25 @@ class BaseInst(Proxy):
     def _assigned_attrs(self):
         return BaseTable(self.fam, 'assigned', self.j)
 
+    @property
+    def cls(self):
+        inst = self
+
+        class Assigns(object):
+            def get(self, key, default=None):
+                return BaseTable(inst.fam, 'direct', inst.j)
+
+        class Top(object):
+            def assigns(self, ctx):
+                return Assigns()
+
+        class Scope(object):
+            top = Top()
+
+        class Cls(object):
+            scope = Scope()
+        return Cls()
+
     def sbool(self):
         return SBool(z3.BoolVal(True))
 
@@ -290,7 +309,9 @@ def instance_attrs(run, twin=None):
     defines the attribute - in particular a base's CLASS attributes never override the subclass's own"""
     run.trust(T_PARAM)
     run.concretise = lambda model, ob: {'input': 'class D(Base) overriding a method', 'script': ATTR_REPLAY % {'repo': core.REPO}}
-    fam = BaseFamily('bases', ['class', 'instance', 'assigned'])
+    fam = BaseFamily('bases', ['class', 'instance', 'assigned', 'direct'])
+    import supp.name as _Nm
+    BaseInst._pyclass = _Nm.InstanceValue
     cls_tab = Src(z3.Bool('class_lookup_has_k'), 'class table (class_lookup)')
     own_assign = Src(z3.Bool('own_methods_assign_k'), 'own self-assignments')
     import supp.name as Nm
